@@ -561,11 +561,27 @@ class Gen:
 
     def s_products(self):
         r = self.r
-        k = r.choice(["outer", "spr", "spr", "spre"])
+        k = r.choice(["outer", "outx", "outx", "spr", "spr", "spre"])
         if self.force.get("spr"):
             k = self.force["spr"][0]
         if self.force.get("outer"):
             k = "outer"
+        if self.force.get("outx"):
+            k = "outx"
+        if k == "outx":
+            # outer_product as a SUB-expression: the enclosing operation hands it a multiplier (scalar factor, array factor,
+            # sign of a subtraction, the other factor of a compound product, the derivative of a function)
+            n, m = self.ext(), self.ext(); t = self.target([n, m])
+            form, (la, ra) = self.force.get("outx") or (r.choice(["sl", "sr", "neg", "al", "ar", "cadd", "csub", "cmul", "fexp"]),
+                                                       r.choice([(None, True), (True, None), (True, True), (True, False), (False, True)]))
+            a, b = self.operand([n], la), self.operand([m], ra)
+            if form in ("sl", "sr"):
+                self.emit("outx %s %d %d %d %s" % (form, t, a, b, r.choice(["3", "-2", "0.5", "-1"])), "outer_product-nested-" + form, [n, m], t)
+            elif form in ("al", "ar"):
+                self.emit("outx %s %d %d %d %d" % (form, t, a, b, self.operand([n, m])), "outer_product-nested-" + form, [n, m], t)
+            else:
+                self.emit("outx %s %d %d %d" % (form, t, a, b), "outer_product-nested-" + form, [n, m], t)
+            return
         if k == "outer":
             n, m = self.ext(), self.ext(); t = self.target([n, m])
             # activity of the two vectors: active x active, passive x active, active x passive (each operand's n_active counts)
@@ -917,6 +933,10 @@ def sweep_cases(rng, tier="quick"):
     for pat in ((True, True), (False, True), (True, False)):
         for _ in range(2):
             D("products", extents=(2, 3, 4, 5), outer=pat)
+    # outer_product nested in an enclosing operation: every form x every activity pattern
+    for form in ("sl", "sr", "neg", "al", "ar", "cadd", "csub", "cmul", "fexp"):
+        for pat in ((True, True), (False, True), (True, False)):
+            D("products", extents=(2, 3, 4, 5), outx=(form, pat))
     # reductions: function x rank (whole array, plain and of an expression), function x rank x dimension (plain and expression)
     for f in FUNS:
         for rank in (1, 2, 3):
